@@ -68,13 +68,16 @@ Section Tail.
       split; [assumption|]. norm. simpl. auto.
   Qed.
 
+  Lemma rop_of_rest lo o : not_numlbl o = true -> rop_of false lo o = RGood (code_view o).
+  Proof. destruct o; try discriminate; intros _; unfold rop_of; simpl; try rewrite orb_true_r; reflexivity. Qed.
+
   Lemma parse_tail_render ops : forall ls n w,
     forallb is_ws w = true -> length ops <= n ->
-    forallb valid_operand ops = true -> forallb valid_oplay3 ls = true ->
-    parse_tail n (w ++ render_rest ls ops ++ tail) = Some (Some (map RGood ops)).
+    forallb valid_operand ops = true -> forallb not_numlbl ops = true -> forallb valid_oplay3 ls = true ->
+    parse_tail n (w ++ render_rest ls ops ++ tail) = Some (Some (map RGood (map code_view ops))).
   Proof.
     destruct (comment_end cm Hcm) as (He1 & He2 & Hs).
-    induction ops as [|o ops IH]; intros ls n w Hw Hn Hops Hls; rewrite parse_tail_eq.
+    induction ops as [|o ops IH]; intros ls n w Hw Hn Hops Hnl Hls; rewrite parse_tail_eq.
     - simpl render_rest. simpl app. unfold tail. rewrite app_assoc.
       rewrite skip_app by (auto using forallb_app_true, sep_start_stops_ws).
       cbv zeta. rewrite He1, He2. reflexivity.
@@ -82,6 +85,7 @@ Section Tail.
       destruct (nth_lay ls) as [[lo wb] wa]. simpl in Hx. repeat rewrite andb_true_iff in Hx.
       destruct Hx as (Hlo & Hwb & Hwa).
       simpl in Hops. apply andb_true_iff in Hops. destruct Hops as [Ho Hops].
+      simpl in Hnl. apply andb_true_iff in Hnl. destruct Hnl as [Hnl1 Hnl].
       destruct n as [|n]; [simpl in Hn; lia|].
       norm. rewrite skip_app by (assumption || reflexivity).
       cbv zeta. change (at_end ("," :: ?x)) with false. cbv iota. simpl hd_eqb. simpl tl. cbv iota.
@@ -96,8 +100,8 @@ Section Tail.
       rewrite Hne.
       rewrite parse_operand_render by (assumption || (apply after_op_rest; assumption)).
       rewrite after_op_delim by (apply after_op_rest; assumption).
-      rewrite IH; [|assumption|simpl in Hn; lia|assumption|assumption].
-      unfold rop_of. simpl. destruct o; try reflexivity. rewrite orb_true_r. reflexivity.
+      rewrite IH; [|assumption|simpl in Hn; lia|assumption|assumption|assumption].
+      rewrite rop_of_rest by assumption. reflexivity.
   Qed.
 End Tail.
 
@@ -149,6 +153,69 @@ Proof.
   apply andb_true_iff in Ha. destruct Ha. rewrite alnum_not_comma, IH by assumption. reflexivity.
 Qed.
 
+(* ---------------------------------------------------------------- data16 / data32 prefixes *)
+Lemma starts_app p x : starts p (p ++ x) = true.
+Proof. induction p as [|a p IH]; simpl; [reflexivity|]. rewrite Ascii.eqb_refl. exact IH. Qed.
+
+Lemma starts_app_false p : forall m rest, forallb is_alnum p = true -> stops is_alnum rest ->
+  starts p m = false -> starts p (m ++ rest) = false.
+Proof.
+  induction p as [|a p IH]; intros m rest Hp Hr Hm; [discriminate|].
+  simpl in Hp. apply andb_true_iff in Hp. destruct Hp as [Ha Hp].
+  destruct m as [|b m]; simpl.
+  - destruct rest as [|c rest]; [reflexivity|]. simpl in Hr.
+    destruct (Ascii.eqb a c) eqn:E; [|reflexivity]. apply Ascii.eqb_eq in E. subst c. congruence.
+  - simpl in Hm. destruct (Ascii.eqb a b); [|reflexivity]. simpl in *. apply IH; assumption.
+Qed.
+
+Lemma strip_data_done fuel l : starts (L "data16") l = false -> starts (L "data32") l = false -> strip_data fuel l = l.
+Proof. intros H1 H2. destruct fuel; cbn [strip_data]; [reflexivity|]. rewrite H1, H2. reflexivity. Qed.
+
+Definition pfx (p : bool * string) : chars := L (if fst p then "data32" else "data16")%string.
+Lemma pfx_len p : length (pfx p) = 6.
+Proof. destruct p as [[|] w]; reflexivity. Qed.
+Lemma pfx_starts p x : orb (starts (L "data16") (pfx p ++ x)) (starts (L "data32") (pfx p ++ x)) = true.
+Proof.
+  destruct p as [[|] w]; unfold pfx; simpl fst.
+  - rewrite (starts_app (L "data32")). apply orb_true_r.
+  - rewrite (starts_app (L "data16")). reflexivity.
+Qed.
+Lemma pfx_head p : exists t, pfx p = "d" :: t /\ forallb is_alnum t = true.
+Proof. destruct p as [[|] w]; eexists; split; reflexivity. Qed.
+
+Lemma render_prefixes_cons p ps : render_prefixes (p :: ps) = pfx p ++ L (snd p) ++ render_prefixes ps.
+Proof. unfold render_prefixes, pfx. simpl flat_map. rewrite <- app_assoc. reflexivity. Qed.
+
+Lemma render_prefixes_len ps x : length ps <= length (render_prefixes ps ++ x).
+Proof.
+  induction ps as [|p ps IH]; [simpl; lia|]. rewrite render_prefixes_cons. repeat rewrite app_length.
+  rewrite pfx_len. rewrite app_length in IH. simpl. lia.
+Qed.
+
+(* text that starts with a letter *)
+Definition alpha_head (l : chars) : Prop := match l with c :: _ => is_alpha c = true | [] => False end.
+Lemma alpha_head_stops_ws l : alpha_head l -> stops is_ws l.
+Proof. destruct l; simpl; [auto|]. apply alpha_not_ws. Qed.
+Lemma prefixes_alpha_head ps l : alpha_head l -> alpha_head (render_prefixes ps ++ l).
+Proof.
+  intro H. destruct ps as [|p ps]; [exact H|]. rewrite render_prefixes_cons.
+  destruct (pfx_head p) as (t & -> & _). reflexivity.
+Qed.
+
+Lemma strip_data_prefixes ps : forall fuel l, length ps <= fuel -> forallb valid_prefix ps = true -> alpha_head l ->
+  strip_data fuel (render_prefixes ps ++ l) = strip_data (fuel - length ps) l.
+Proof.
+  induction ps as [|p ps IH]; intros fuel l Hf Hps Hl.
+  - simpl. rewrite Nat.sub_0_r. reflexivity.
+  - simpl in Hps. apply andb_true_iff in Hps. destruct Hps as [Hp Hps].
+    unfold valid_prefix in Hp. apply andb_true_iff in Hp. destruct Hp as [Hw _].
+    destruct fuel as [|fuel]; [simpl in Hf; lia|].
+    rewrite render_prefixes_cons. norm. cbn [strip_data]. rewrite pfx_starts.
+    rewrite <- (pfx_len p) at 1. rewrite skipn_app, Nat.sub_diag, skipn_all. simpl skipn. rewrite app_nil_l.
+    rewrite skipL; [|assumption|apply alpha_head_stops_ws; apply prefixes_alpha_head; assumption].
+    simpl length. rewrite Nat.sub_succ. apply IH; [simpl in Hf; lia|assumption|assumption].
+Qed.
+
 (* ---------------------------------------------------------------- instruction line *)
 Section Instr.
   Variable lay : layout.
@@ -157,6 +224,7 @@ Section Instr.
   Hypothesis Hlay : valid_layout lay = true.
   Hypothesis Hm : valid_mnemonic m = true.
   Hypothesis Hops : forallb valid_operand ops = true.
+  Hypothesis Hnl : forallb not_numlbl (tl ops) = true.
   Hypothesis Hlen : length ops <= 4.
 
   Let tail := L (trail lay) ++ render_comment (comment lay).
@@ -166,31 +234,35 @@ Section Instr.
     | o :: ops' => let '(lo, wb, _) := nth_lay (lops lay) in
                    L (gap lay) ++ render_op true lo o ++ L wb ++ render_rest (tl (lops lay)) ops'
     end.
+  Let pre := render_prefixes (prefixes lay).
 
   Lemma lay_inv : blanks (lead lay) = true /\ blanks (gap lay) = true /\ gap lay <> ""%string
-                  /\ forallb valid_oplay3 (lops lay) = true /\ blanks (trail lay) = true /\ valid_comment (comment lay) = true.
+                  /\ forallb valid_oplay3 (lops lay) = true /\ blanks (trail lay) = true /\ valid_comment (comment lay) = true
+                  /\ forallb valid_prefix (prefixes lay) = true.
   Proof.
     unfold valid_layout in Hlay. repeat rewrite andb_true_iff in Hlay.
-    destruct Hlay as (H1 & H2 & H3 & H4 & H5 & H6). repeat split; try assumption.
+    destruct Hlay as (H1 & H2 & H3 & H4 & H5 & H6 & H7). repeat split; try assumption.
     intro E. rewrite E in H3. discriminate.
   Qed.
 
   Lemma mnem_inv : exists c t, L m = c :: t /\ is_alpha c = true /\ forallb is_alnum (c :: t) = true
-                               /\ mnem_ok (c :: t) = true.
+                               /\ mnem_ok (c :: t) = true
+                               /\ starts (L "data16") (c :: t) = false /\ starts (L "data32") (c :: t) = false.
   Proof.
     unfold valid_mnemonic in Hm. destruct (L m) as [|c t]; [discriminate|].
     repeat rewrite andb_true_iff in Hm. destruct Hm as (Hc & Ht & Hd).
-    exists c, t. repeat split; try assumption.
+    apply negb_true_iff in Hd. apply orb_false_iff in Hd.
+    exists c, t. repeat split; try tauto.
     - simpl. rewrite alpha_alnum by assumption. assumption.
     - unfold mnem_ok. rewrite Hc. rewrite andb_true_l.
       assert (existsb (Ascii.eqb ",") (c :: t) = false) as Hx.
       { apply alnum_no_comma. simpl. rewrite alpha_alnum by assumption. assumption. }
-      rewrite Hx. rewrite orb_false_l. exact Hd.
+      rewrite Hx. rewrite orb_false_l. destruct Hd as [-> ->]. reflexivity.
   Qed.
 
   Lemma body_tail_soft : soft_head (body ++ tail).
   Proof.
-    destruct lay_inv as (_ & Hg & Hgne & _ & Ht & Hc).
+    destruct lay_inv as (_ & Hg & Hgne & _ & Ht & Hc & _).
     unfold body. destruct ops as [|o ops'].
     - simpl. unfold tail. apply soft_ws_app; [assumption|]. apply comment_soft. assumption.
     - destruct (nth_lay (lops lay)) as [[lo wb] wa]. norm.
@@ -200,13 +272,22 @@ Section Instr.
         simpl. tauto.
   Qed.
 
-  Lemma parse_instr_render : parse_instr (L m ++ body ++ tail) = Parsed (PInstr m ops).
+  Lemma strip_render : strip_data (length (pre ++ L m ++ body ++ tail)) (pre ++ L m ++ body ++ tail) = L m ++ body ++ tail.
   Proof.
-    destruct lay_inv as (_ & Hg & Hgne & Hls & Ht & Hc).
-    destruct mnem_inv as (c & t & Em & Hca & Hall & Hok).
+    destruct lay_inv as (_ & _ & _ & _ & _ & _ & Hps).
+    destruct mnem_inv as (c & t & Em & Hca & Hall & Hok & Hd16 & Hd32).
+    pose proof body_tail_soft as Hsoft.
+    unfold pre. rewrite strip_data_prefixes; [|apply render_prefixes_len|assumption|rewrite Em; exact Hca].
+    apply strip_data_done; rewrite Em; (apply starts_app_false; [reflexivity|apply soft_stops; auto using ws_not_alnum|assumption]).
+  Qed.
+
+  Lemma parse_instr_render : parse_instr (pre ++ L m ++ body ++ tail) = Parsed (PInstr m (map code_view ops)).
+  Proof.
+    destruct lay_inv as (_ & Hg & Hgne & Hls & Ht & Hc & _).
+    destruct mnem_inv as (c & t & Em & Hca & Hall & Hok & _).
     destruct (comment_end (comment lay) Hc) as (He1 & He2 & Hs).
     pose proof body_tail_soft as Hsoft.
-    unfold parse_instr.
+    unfold parse_instr. rewrite strip_render. cbv zeta.
     rewrite span_app; [|rewrite Em; eapply forallb_impl; [|exact Hall]; exact alnum_mnem
                        |apply soft_stops; auto using ws_not_mnem].
     rewrite Em, Hok, <- Em. simpl negb. cbv iota.
@@ -218,6 +299,7 @@ Section Instr.
       destruct (nth_lay (lops lay)) as [[lo wb] wa]. simpl in Hx. repeat rewrite andb_true_iff in Hx.
       destruct Hx as (Hlo & Hwb & Hwa).
       simpl in Hops. apply andb_true_iff in Hops. destruct Hops as [Ho Hops'].
+      simpl in Hnl.
       destruct (render_op_head true lo o Ho) as (c1 & t1 & Eo & Hc1).
       norm. rewrite skipL; [|assumption|rewrite Eo; simpl; auto using ophead_not_ws].
       assert (Hne : at_end (render_op true lo o ++ L wb ++ render_rest (tl (lops lay)) ops' ++ tail) = false
@@ -229,66 +311,108 @@ Section Instr.
       rewrite parse_operand_render by assumption.
       rewrite after_op_delim by assumption. simpl negb. cbv iota.
       unfold tail. rewrite (parse_tail_render (trail lay) (comment lay) Ht Hc ops' (tl (lops lay)) 3 (L wb));
-        [|assumption|simpl in Hlen; lia|assumption|assumption].
+        [|assumption|simpl in Hlen; lia|assumption|assumption|assumption].
       assert (Hbad : forall l, existsb is_bad (map RGood l) = false) by (induction l; simpl; auto).
       assert (Hbare : forall l, existsb is_bare (map RGood l) = false) by (induction l; simpl; auto).
       assert (Hmap : forall l, map op_of (map RGood l) = l) by (induction l; simpl; congruence).
       simpl existsb. rewrite Hbad, Hbare, orb_false_r.
       assert (is_bad (rop_of true lo o) = false) as Hb1 by (unfold rop_of; destruct o; try reflexivity; destruct (orb _ _); reflexivity).
       rewrite Hb1. simpl map. rewrite Hmap, S_L.
-      assert (op_of (rop_of true lo o) = o) as Ho1 by (unfold rop_of; destruct o; try reflexivity; destruct (orb _ _); reflexivity).
+      assert (op_of (rop_of true lo o) = code_view o) as Ho1 by (unfold rop_of; destruct o; try reflexivity; destruct (orb _ _); reflexivity).
       rewrite Ho1. reflexivity.
   Qed.
 
-  Lemma render_chars_eq : render_chars lay (m, ops) = L (lead lay) ++ L m ++ body ++ tail.
+  Lemma render_chars_eq : render_chars lay (m, ops) = L (lead lay) ++ pre ++ L m ++ body ++ tail.
   Proof.
-    unfold render_chars, body, tail. destruct ops as [|o ops']; [reflexivity|].
+    unfold render_chars, body, tail, pre. destruct ops as [|o ops']; [reflexivity|].
     destruct (nth_lay (lops lay)) as [[lo wb] wa]. reflexivity.
   Qed.
 
-  Lemma parse_chars_render : parse_chars (render_chars lay (m, ops)) = Parsed (PInstr m ops).
+  (* the first word of the line (a prefix or the mnemonic) and what follows it *)
+  Lemma first_word : exists c0 w0 r1, pre ++ L m ++ body ++ tail = c0 :: w0 ++ r1
+      /\ is_alpha c0 = true /\ forallb is_alnum w0 = true /\ soft_head r1 /\ hd_eqb ":" (skip r1) = false.
+  Proof.
+    destruct lay_inv as (_ & Hg & Hgne & Hls & Ht & Hc & Hps).
+    destruct mnem_inv as (c & t & Em & Hca & Hall & Hok & _).
+    pose proof body_tail_soft as Hsoft.
+    unfold pre. destruct (prefixes lay) as [|p ps].
+    - (* the mnemonic *)
+      exists c, t, (body ++ tail). simpl app. rewrite Em. norm. repeat split; try assumption.
+      + simpl in Hall. apply andb_true_iff in Hall. tauto.
+      + destruct (comment_end (comment lay) Hc) as (_ & _ & Hs).
+        unfold body. destruct ops as [|o ops'].
+        * simpl app. unfold tail. rewrite skipL by (auto using sep_start_stops_ws).
+          destruct (render_comment (comment lay)) as [|x xs]; [reflexivity|].
+          simpl in *. destruct Hs as [H|[H|H]]; subst; reflexivity.
+        * destruct (nth_lay_valid _ Hls) as [Hx Htl].
+          destruct (nth_lay (lops lay)) as [[lo wb] wa].
+          simpl in Hops. apply andb_true_iff in Hops. destruct Hops as [Ho Hops'].
+          destruct (render_op_head true lo o Ho) as (c1 & t1 & Eo & Hc1).
+          norm. rewrite skipL; [|assumption|rewrite Eo; simpl; auto using ophead_not_ws].
+          rewrite Eo. simpl. auto using ophead_not_colon.
+    - (* a prefix, followed by at least one blank *)
+      simpl in Hps. apply andb_true_iff in Hps. destruct Hps as [Hp Hps].
+      unfold valid_prefix in Hp. apply andb_true_iff in Hp. destruct Hp as [Hw Hwne].
+      destruct (pfx_head p) as (t0 & Ep & Ht0).
+      exists "d", t0, (L (snd p) ++ render_prefixes ps ++ L m ++ body ++ tail).
+      rewrite render_prefixes_cons. norm. rewrite Ep. norm. repeat split; try assumption.
+      + destruct (L (snd p)) as [|y ys] eqn:Ew.
+        * exfalso. apply negb_true_iff in Hwne. apply String.eqb_neq in Hwne. apply Hwne.
+          rewrite <- (S_L (snd p)), Ew. reflexivity.
+        * unfold blanks, allc in Hw. rewrite Ew in Hw. simpl in Hw. apply andb_true_iff in Hw. simpl. tauto.
+      + assert (Ha : alpha_head (render_prefixes ps ++ L m ++ body ++ tail)).
+        { apply prefixes_alpha_head. rewrite Em. exact Hca. }
+        rewrite skipL; [|assumption|apply alpha_head_stops_ws; assumption].
+        destruct (render_prefixes ps ++ L m ++ body ++ tail) as [|x xs]; [reflexivity|].
+        simpl in Ha. simpl. destruct x as [[|] [|] [|] [|] [|] [|] [|] [|]]; try discriminate; reflexivity.
+  Qed.
+
+  Lemma parse_chars_render : parse_chars (render_chars lay (m, ops)) = Parsed (PInstr m (map code_view ops)).
   Proof.
     rewrite render_chars_eq.
     destruct lay_inv as (Hl & _).
-    destruct mnem_inv as (c & t & Em & Hca & Hall & Hok).
-    pose proof body_tail_soft as Hsoft.
+    pose proof parse_instr_render as Hpi.
+    destruct first_word as (c0 & w0 & r1 & E0 & Hc0 & Hw0 & Hsoft & Hnc).
+    rewrite E0 in *.
     unfold parse_chars.
-    rewrite skipL; [|assumption|rewrite Em; simpl; auto using alpha_not_ws].
-    pose proof parse_instr_render as Hpi. rewrite Em in *. norm. norm in Hpi.
+    rewrite skipL; [|assumption|simpl; auto using alpha_not_ws].
     cbv zeta iota beta.
-    assert (at_end (c :: t ++ body ++ tail) = false) as Hae.
+    assert (at_end (c0 :: w0 ++ r1) = false) as Hae.
     { unfold at_end. rewrite alpha_not_hash, alpha_not_slash by assumption. reflexivity. }
     rewrite Hae. rewrite alpha_lblfirst by assumption.
-    simpl in Hall. apply andb_true_iff in Hall. destruct Hall as [_ Hall].
-    rewrite span_app; [|eapply forallb_impl; [|exact Hall]; exact alnum_lblrest
+    rewrite span_app; [|eapply forallb_impl; [|exact Hw0]; exact alnum_lblrest
                        |apply soft_stops; auto using ws_not_lblrest].
     rewrite (soft_not "@") by (auto using ws_not_at).
-    (* what follows the blanks is no ":" *)
-    assert (hd_eqb ":" (skip (body ++ tail)) = false) as Hnc.
-    { destruct lay_inv as (_ & Hg & Hgne & Hls & Ht & Hc).
-      destruct (comment_end (comment lay) Hc) as (_ & _ & Hs).
-      unfold body. destruct ops as [|o ops'].
-      - simpl app. unfold tail. rewrite skipL by (auto using sep_start_stops_ws).
-        destruct (render_comment (comment lay)) as [|x xs]; [reflexivity|].
-        simpl in *. destruct Hs as [H|[H|H]]; subst; reflexivity.
-      - destruct (nth_lay_valid _ Hls) as [Hx Htl].
-        destruct (nth_lay (lops lay)) as [[lo wb] wa].
-        simpl in Hops. apply andb_true_iff in Hops. destruct Hops as [Ho Hops'].
-        destruct (render_op_head true lo o Ho) as (c1 & t1 & Eo & Hc1).
-        norm. rewrite skipL; [|assumption|rewrite Eo; simpl; auto using ophead_not_ws].
-        rewrite Eo. simpl. auto using ophead_not_colon. }
-    rewrite Hnc. rewrite alpha_not_dot, Hca by assumption. exact Hpi.
+    rewrite Hnc. rewrite alpha_not_dot, Hc0 by assumption. exact Hpi.
   Qed.
 End Instr.
+
+Lemma lossless_view o : lossless o = true -> code_view o = o.
+Proof. destruct o as [| | |d ? ? ?| | | | | |]; try discriminate; try reflexivity. destruct d; try discriminate; reflexivity. Qed.
+
+Lemma lossless_map ops : forallb lossless ops = true -> map code_view ops = ops.
+Proof.
+  induction ops as [|o ops IH]; [reflexivity|]. simpl. intro H. apply andb_true_iff in H. destruct H as [Ho H].
+  rewrite lossless_view, IH by assumption. reflexivity.
+Qed.
+
+(* the written language: what the code keeps of every operand *)
+Theorem roundtrip_view_proof lay a :
+  valid_instr_w a = true -> valid_layout lay = true ->
+  parse_line (render_line lay a) = Parsed (PInstr (fst a) (map code_view (snd a))).
+Proof.
+  destruct a as [m ops]. unfold valid_instr_w. simpl fst. simpl snd. intros Ha Hl.
+  repeat rewrite andb_true_iff in Ha. destruct Ha as (Hm & Hops & Hnl & Hlen).
+  apply Nat.leb_le in Hlen.
+  unfold parse_line, render_line. rewrite L_S. apply parse_chars_render; assumption.
+Qed.
 
 Theorem roundtrip_proof lay a :
   valid_instr a = true -> valid_layout lay = true ->
   parse_line (render_line lay a) = Parsed (PInstr (fst a) (snd a)).
 Proof.
-  destruct a as [m ops]. unfold valid_instr. simpl fst. simpl snd. intros Ha Hl.
-  repeat rewrite andb_true_iff in Ha. destruct Ha as (Hm & Hops & Hlen).
-  apply Nat.leb_le in Hlen.
-  unfold parse_line, render_line. rewrite L_S. apply parse_chars_render; assumption.
+  unfold valid_instr. intros Ha Hl. apply andb_true_iff in Ha. destruct Ha as [Hw Hll].
+  rewrite roundtrip_view_proof by assumption. rewrite lossless_map by assumption. reflexivity.
 Qed.
 
 (* ---------------------------------------------------------------- comment lines *)
@@ -389,17 +513,16 @@ Proof.
   unfold valid_dirname in Hn. destruct (L name) as [|x t] eqn:En; [discriminate|].
   rewrite <- En in Hn.
   (* facts about the rest *)
-  assert (Hrest : soft_head (L rest) /\ end_ok (L rest) = true /\ existsb is_quote (L rest) = false
+  assert (Hrest : soft_head (L rest) /\ end_ok (L rest) = true
                   /\ hd_eqb ":" (skip (L rest)) = false).
   { unfold valid_dirrest in Hr. destruct (L rest) as [|y ys] eqn:Er.
     - repeat split; reflexivity.
-    - repeat rewrite andb_true_iff in Hr. destruct Hr as (Hy & Hall & Hq & Hcol).
+    - repeat rewrite andb_true_iff in Hr. destruct Hr as (Hy & Hall & Hcol).
       repeat split.
       + simpl. auto.
       + exact Hall.
-      + apply negb_true_iff. exact Hq.
       + apply negb_true_iff. exact Hcol. }
-  destruct Hrest as (Hsoft & Hend & Hq & Hcol).
+  destruct Hrest as (Hsoft & Hend & Hcol).
   unfold parse_chars. norm.
   rewrite skipL by (assumption || reflexivity).
   cbv zeta iota beta.
@@ -415,7 +538,7 @@ Proof.
     apply dirname_not_ws. tauto. }
   rewrite Hsk.
   rewrite span_app; [|assumption|apply soft_stops; auto using ws_not_dirname].
-  rewrite En. rewrite Hq, Hend. simpl. rewrite <- En, S_L. reflexivity.
+  rewrite En. rewrite Hend. simpl. rewrite <- En, S_L. reflexivity.
 Qed.
 
 (* ---------------------------------------------------------------- exclusivity *)
